@@ -10,6 +10,7 @@ use std::io::Seek;
 use std::io::Write;
 use std::path::PathBuf;
 use std::time::Duration;
+use std::time::Instant;
 
 use anyhow::Context;
 use anyhow::Result;
@@ -99,6 +100,7 @@ impl Runner for SubprocessRunner {
         }
 
         // constraint max execution time?
+        let started = Instant::now();
         let mut comm = process.communicate_start(Some(input.as_bytes().to_vec()));
         if let Some(timeout) = testcase.config.timeout {
             comm = comm.limit_time(timeout);
@@ -113,11 +115,28 @@ impl Runner for SubprocessRunner {
         // wait for the process to finish and handle the result
         let (stdout, stderr, exit_code) = match comm.read() {
             // successs! we are happy!
-            Ok((stdout, stderr)) => (
-                stdout,
-                stderr,
-                process.wait().context("capture process exit")?.into(),
-            ),
+            Ok((stdout, stderr)) => {
+                // the output streams are closed, but the process may still be running:
+                // the time limit holds for it all the same
+                let exit_status = match testcase.config.timeout {
+                    Some(timeout) => process
+                        .wait_timeout(timeout.saturating_sub(started.elapsed()))
+                        .context("capture process exit")?,
+                    None => Some(process.wait().context("capture process exit")?),
+                };
+                match exit_status {
+                    Some(exit_status) => (stdout, stderr, exit_status.into()),
+                    None => {
+                        let _ = process.kill();
+                        let _ = process.wait();
+                        (
+                            stdout,
+                            stderr,
+                            OutputExitStatus::Timeout(testcase.config.timeout.unwrap_or_default()),
+                        )
+                    }
+                }
+            }
 
             // bummer, a sad thing happened
             Err(err) => {
@@ -185,6 +204,7 @@ impl From<ExitStatus> for OutputExitStatus {
 #[cfg(test)]
 mod tests {
     use std::time::Duration;
+use std::time::Instant;
 
     use super::Runner;
     use super::SubprocessRunner;
